@@ -23,10 +23,15 @@
    GRPCError into its status, any other Exception into UNKNOWN, and sends nothing more when the
    handler had already sent trailers.
    asyncio: a timer and the handler's own wake-up due at the same instant: the cancellation wins
-   (Task.cancel on a task whose wait already completed sets must_cancel). *)
+   (Task.cancel on a task whose wait already completed sets must_cancel).
+   The ORDER of the two context managers and the statements of start()'s expired branch are
+   source facts (Gen/FactsC05.v, regenerated on every run): `wrapper` entered first would make the
+   request task a member BEFORE start() calls self.cancel() for an expired deadline, the task would
+   cancel ITSELF, and the pending CancelledError would hit the first real suspension of the reply
+   path (a listener that awaits, send_headers waiting for write_ready): no answer at all. *)
 From Coq Require Import ZArith List Bool.
 From Flocq Require Import Core IEEE754.BinarySingleNaN IEEE754.Binary IEEE754.Bits.
-From GV Require Import Lib.Str Gen.Facts Model.Timeout.
+From GV Require Import Lib.Str Gen.Facts Gen.FactsC05 Model.Timeout.
 Import ListNotations.
 Open Scope Z_scope.
 
@@ -71,11 +76,42 @@ Definition own_status (k : fin_kind) : sstatus :=
 Definition final_status (h : handler) (st : sstatus) : sstatus :=
   if h_trailers_first h then StOK else st.
 
+(* ---- an already expired deadline: entering the context managers in the order of the source ---- *)
+(* DeadlineWrapper.start with nothing remaining: Some (wrapper.cancelled, the current task cancelled
+   itself) at the `raise`; None when the branch does not raise (not the code's shape) *)
+Fixpoint expired_start (acts : list start_act) (member cancelled selfc : bool) : option (bool * bool) :=
+  match acts with
+  | [] => None
+  | SA_cancel :: r => expired_start r member true (selfc || member)     (* Task.cancel of the members *)
+  | SA_raise :: _ => Some (cancelled, selfc)
+  | _ :: r => expired_start r member cancelled selfc
+  end.
+Fixpoint expired_enter (order : list cm) (acts : list start_act) (member : bool) : option (bool * bool) :=
+  match order with
+  | [] => None
+  | CMWrapper :: r => expired_enter r acts true                         (* Wrapper.__enter__: member *)
+  | CMDeadline :: _ => expired_start acts member false false
+  end.
+(* the TimeoutError unwinds through wrapper.__exit__ (replaced by the same error when cancelled);
+   `except asyncio.TimeoutError`: cancel_failed / cancelled -> DEADLINE_EXCEEDED, else re-raised ->
+   UNKNOWN; a self-cancelled task loses its answer at the first suspension of the reply path *)
+Definition expired_status_of (order : list cm) (acts : list start_act) (reply_suspends : bool) : sstatus :=
+  match expired_enter order acts false with
+  | None => StNoAnswer
+  | Some (cancelled, selfc) =>
+      if selfc && reply_suspends then StNoAnswer
+      else if cancelled then StDeadline else StUnknown
+  end.
+Definition expired_status (reply_suspends : bool) : sstatus :=
+  expired_status_of handler_with_order start_expired reply_suspends.
+
 (* Deadline.time_remaining(): Some x when x = ts - now > 0, None for "nothing remains" (the int 0) *)
 Definition time_remaining (ts a : f64) : option f64 :=
   let x := fsub ts a in if fpos x then Some x else None.
 
-Definition serve (a : f64) (hs : list (list Z * list Z)) (h : handler) : sobs :=
+(* rs: the reply path suspends (a SendTrailingMetadata listener really awaits, or the transport is
+   paused so that send_headers waits for write_ready) *)
+Definition serve (a : f64) (hs : list (list Z * list Z)) (h : handler) (rs : bool) : sobs :=
   match from_headers_timeout hs with
   | Err ValueError =>
       {| o_status := StUnknown; o_started := false; o_timer := None; o_cancel_at := None;
@@ -94,7 +130,7 @@ Definition serve (a : f64) (hs : list (list Z * list Z)) (h : handler) : sobs :=
       | Ok ts =>
           match time_remaining ts a with
           | None =>                  (* already expired: start() marks the wrapper cancelled, raises *)
-              {| o_status := StDeadline; o_started := false; o_timer := None;
+              {| o_status := expired_status rs; o_started := false; o_timer := None;
                  o_cancel_at := None; o_end_at := a |}
           | Some rem =>
               let when := fadd a rem in           (* loop.call_later(timeout): time() + timeout *)
